@@ -701,6 +701,7 @@ type e2sched struct {
 type spolicy struct {
 	FastNotify bool     `json:"fast_notify,omitempty"`
 	SlowRPC    []string `json:"slow_rpc,omitempty"`
+	EagerSpawn bool     `json:"eager_spawn,omitempty"`
 }
 
 // pact mirrors pt.Action for plans.
@@ -873,7 +874,21 @@ func init() {
 			a.Policy = &spolicy{FastNotify: true, SlowRPC: []string{"c2"}}
 			return a
 		}
+		// one client issues two operations in a row (the second while the push of the first, or what follows it, is under way),
+		// the other only listens
+		rt2 := func(typ string) e2sched {
+			a := rt(2, typ, false)
+			a.Conc = []pact{{Op: "seq", R: 0, Sub: []pact{localOp(typ, 0), localOp(typ, 0)}}}
+			return a
+		}
+		rt2e := func(typ string) e2sched {
+			a := rt2(typ)
+			a.Policy = &spolicy{EagerSpawn: true, FastNotify: true}
+			return a
+		}
 		if tier == "quick" {
+			p.Runs = append(p.Runs, schedRun("realtime-counter-2ops-listener-b2", 2, rt2("counter"), 0))
+			p.Runs = append(p.Runs, schedRun("realtime-counter-2ops-eager-spawn-b2", 2, rt2e("counter"), 0))
 			p.Runs = append(p.Runs, schedRun("realtime-counter-slow-listener-b1", 1, rtl("counter"), 0))
 			p.Runs = append(p.Runs, schedRun("realtime-counter-2-b2", 2, rt(2, "counter", false), 0), schedRun("realtime-list-2-b1", 1, rt(2, "list", true), 0))
 		} else {
